@@ -3,7 +3,7 @@
  "name": "check_inode_uninit",
  "props": ["C07"],
  "level": "U",
- "tier": "wip",
+ "tier": "quick",
  "harness": "h_check_inode_uninit",
  "loop_contracts": true,
  "unwind": 8,
